@@ -401,11 +401,16 @@ class PiecewiseConstantBirthDeath(Distribution):
             )[..., :-1] + 1.0
 
             # contemporenaous term
+            # when no lineage crosses a boundary the probability of not being sampled
+            # there is not needed: with rho = 1 it would turn 0 * log(0) into nan
+            not_sampled = torch.where(
+                ni == 0.0, torch.ones_like(ni), (1.0 - rho[..., :-1]).expand(ni.shape)
+            )
             log_p += (
                 ni
                 * (
                     self.log_q(A[..., 1:], B[..., 1:], times[..., 1:-1], times[..., 2:])
-                    + torch.log(1.0 - rho[..., :-1])
+                    + torch.log(not_sampled)
                 )
             ).sum(-1)
 
